@@ -35,6 +35,7 @@ type Engine struct {
 	stubTypes map[string]types.Type
 	asmFuncs  map[string]stdHandler
 	feasCheck func([]*Term) bool
+	feasQueries int
 	funcsSeen map[string]int // functions symbolically executed -> instruction count
 	depth     int
 }
@@ -393,6 +394,9 @@ func (e *Engine) run(frp **Frame, s *State, blk, prev, stop *ssa.BasicBlock, phi
 }
 
 func (e *Engine) noteBranch(fr *Frame, i *ssa.If, c *Term) {
+	if !fr.harn {
+		e.H.taintSite("branch@" + e.pos(i))
+	}
 	if c.Sec && !fr.harn {
 		e.H.addTaint(e, "branch", e.pos(i), fr.fn.String())
 	}
@@ -1130,6 +1134,9 @@ func (e *Engine) idxTerm(v Value, t types.Type) *Term {
 func (e *Engine) execIndexAddr(fr *Frame, s *State, i *ssa.IndexAddr) {
 	x := e.get(fr, i.X)
 	idx := e.idxTerm(e.get(fr, i.Index), i.Index.Type())
+	if !idx.IsConst() && !fr.harn {
+		e.H.taintSite("index@" + e.pos(i))
+	}
 	if idx.Sec && !idx.IsConst() && !fr.harn {
 		e.H.addTaint(e, "memory index", e.pos(i), fr.fn.String())
 	}
